@@ -16,7 +16,7 @@ Require Import String.
 Require Import Arith Lia List Bool ZArith QArith Qcanon Permutation.
 From TK Require Import Mat_Sums Mat_Core Mat_Qc Mat_EigSelect EigSelect Mat_EigSelect_Tie
                        Lle_Model Lle_Spec Lle_Proof_Triplets Lle_Proof_Lle Lle_Proof_Ltsa
-                       Lle_Proof_Hlle Lle_Proof_Embed Lle_Proof_Gs Lle_Proof_GsQc Lle_Proof_KyFan Lle_Proof_Flat Lle_Proof_Run Lle_Loop HlleLoop Lle_Proof_Loop Lle_Proof_Psd Lle_Proof_EndToEnd Lle_Proof_Scale.
+                       Lle_Proof_Hlle Lle_Proof_Embed Lle_Proof_Gs Lle_Proof_GsQc Lle_Proof_KyFan Lle_Proof_Flat Lle_Proof_Run Lle_Loop HlleLoop Lle_Proof_Loop Lle_Proof_Psd Lle_Proof_EndToEnd Lle_Proof_Scale Lle_Proof_Proj.
 Import ListNotations.
 Local Open Scope nat_scope.
 
@@ -792,4 +792,53 @@ Proof.
   split; [apply meq_refl|].
   intros u v Hu Hv. destruct u as [|[|u]]; try lia; destruct v as [|[|v]]; try lia;
     apply Qc_is_canon; vm_compute; reflexivity.
+Qed.
+
+(* ---------------------------------------------------------------------- *)
+(* 10. Orthogonal projectors are determined by their range (wave 2).       *)
+(*     The projector sum_u u u^T/(u.u) that the sqrt-free Gram-Schmidt     *)
+(*     computes depends on the input columns only through their span       *)
+(*     (stated dually: the same vectors are orthogonal to both lists), and *)
+(*     therefore HLLE's local matrix H H^T depends on the tangent          *)
+(*     coordinates only through their AFFINE span: V' = 1 M^T + V R and    *)
+(*     back.  The C++ feeds centred unit eigenvectors, the exact streams   *)
+(*     of the check (hlle-flat, hlle-curved-sym) feed integer coordinates  *)
+(*     of the same tangent space: same local matrix.  Qc (formally real).  *)
+(* ---------------------------------------------------------------------- *)
+Theorem C08_gs_projector_span :
+  forall (k : nat) (cols cols' : list (vec Qc)),
+    gs_nondegenerate (mgs_sf k [] cols) -> gs_nondegenerate (mgs_sf k [] cols') ->
+    (forall w : vec Qc, (forall c, In c cols -> dot k w c = 0%F) <-> (forall c, In c cols' -> dot k w c = 0%F)) ->
+    forall a b, a < k -> b < k ->
+      outer_sum_sf (mgs_sf k [] cols) a b = outer_sum_sf (mgs_sf k [] cols') a b.
+Proof. exact gs_proj_span_Qc. Qed.
+Print Assumptions C08_gs_projector_span.
+
+Theorem C08_hlle_local_basis_free :
+  forall (k d : nat) (prev prev' V V' R R' : mat Qc) (M M' : vec Qc),
+    (forall a t, a < k -> t < d -> V' a t = (M t + sumn d (fun s => V a s * R s t))%F) ->
+    (forall a t, a < k -> t < d -> V a t = (M' t + sumn d (fun s => V' a s * R' s t))%F) ->
+    gs_nondegenerate (hlle_gs_sf false k d prev V) ->
+    gs_nondegenerate (hlle_gs_sf false k d prev' V') ->
+    forall a b, a < k -> b < k ->
+      hlle_local_sf false k d prev V a b = hlle_local_sf false k d prev' V' a b.
+Proof. exact hlle_local_basis_free_Qc. Qed.
+Print Assumptions C08_hlle_local_basis_free.
+
+(* non-vacuity: V = (1,-1,7,-7), V' = 3 + 2 V *)
+Definition c08_V4' : mat Qc := mof [[qz 5]; [qz 1]; [qz 17]; [qz (-11)]].
+
+Example C08_hlle_local_basis_free_nonvacuous :
+  (forall a t, a < 4 -> t < 1 ->
+      c08_V4' a t = ((fun _ => qz 3) t + sumn 1 (fun s => c08_V4 a s * (fun _ _ => qz 2) s t))%F) /\
+  (forall a t, a < 4 -> t < 1 ->
+      c08_V4 a t = ((fun _ => qfrac (-3) 2) t + sumn 1 (fun s => c08_V4' a s * (fun _ _ => qfrac 1 2) s t))%F) /\
+  gs_nondegenerate (hlle_gs_sf false 4 1 (fun _ _ => 0%F) c08_V4) /\
+  gs_nondegenerate (hlle_gs_sf false 4 1 (fun _ _ => 0%F) c08_V4').
+Proof.
+  split; [intros a t Ha Ht; destruct t as [|t]; try lia;
+          destruct a as [|[|[|[|a]]]]; try lia; apply Qc_is_canon; vm_compute; reflexivity|].
+  split; [intros a t Ha Ht; destruct t as [|t]; try lia;
+          destruct a as [|[|[|[|a]]]]; try lia; apply Qc_is_canon; vm_compute; reflexivity|].
+  split; apply gs_nondegenerate_by_compute; vm_compute; reflexivity.
 Qed.
